@@ -8,10 +8,10 @@ AllTargets == Targets @@ [ optI64 |-> OptT(Targets.i64), optU8 |-> OptT(Targets.
                            vecOptI64 |-> VecT(OptT(Targets.i64)), tupI64 |-> Tup2T(Targets.i64), vecVecI64 |-> VecT(VecT(Targets.i64)) ]
 Key(n) == CASE n = "optI64" -> "Option<i64>" [] n = "optU8" -> "Option<u8>" [] n = "optStr" -> "Option<String>" [] n = "vecI64" -> "Vec<i64>"
             [] n = "vecOptI64" -> "Vec<Option<i64>>" [] n = "tupI64" -> "(i64,i64)" [] n = "vecVecI64" -> "Vec<Vec<i64>>" [] OTHER -> n
-VARIABLE i
-Init == i = 0
-Next == i = 0 /\ i' \in 1..N
-Judged == i = 0 \/
+VARIABLES i, ph
+Init == i \in 1..N /\ ph = 0
+Next == ph = 0 /\ ph' = 1 /\ i' = i
+Judged == ph = 0 \/
   LET v == Res[i].v
       bad == {n \in DOMAIN AllTargets : Verdict(v, AllTargets[n], Res[i].res[Key(n)]) # "fine"}
   IN /\ \A n \in bad : PrintT(<<"VERDICT", i, "C18." \o Verdict(v, AllTargets[n], Res[i].res[Key(n)]), ToJson([v |-> v, target |-> Key(n), got |-> Res[i].res[Key(n)], want |-> Outcome(v, AllTargets[n])])>>)
